@@ -260,23 +260,39 @@ theorem envPlain_spec {env : List (String × V)} {k : Key} (h : envPlain p env k
   · exact absurd hk h
   · exact h
 
-theorem stage_base {a : Arg} (ha : a ∈ p.args) (src : Sources) (hs : srcWf p src = true)
-    (env : Bool) (hn : env = true → envPlain p src.env a.dest = true) :
-    getK a.dest (defaultsAndEnviron p src env) = evalKey a.dest (asgBase p src env) .none
+/-- what `_parse_defaults_and_environ` leaves at a destination, for ALL sources: the value the environment builds
+    ON ITS OWN (from nothing) replaces the value built by the defaults and the default config files -/
+theorem stage_base_exact {a : Arg} (ha : a ∈ p.args) (src : Sources) (hs : srcWf p src = true) (env : Bool) :
+    getK a.dest (defaultsAndEnviron p src env) =
+      (if env then (evalKey a.dest (asgEnvCfg p src.env ++ asgEnvVars p src.env) .none).or
+                    (evalKey a.dest (asgDefaults p ++ asgFiles p src.files) .none)
+       else evalKey a.dest (asgDefaults p ++ asgFiles p src.files) .none)
     ∧ Inv p (defaultsAndEnviron p src env) := by
   simp only [srcWf, Bool.and_eq_true, List.all_eq_true] at hs
   obtain ⟨⟨hfiles, henv⟩, _⟩ := hs
   obtain ⟨h1, h2⟩ := stage_getDefaults hp ha src.files hfiles
   cases env with
   | false =>
-    simp only [defaultsAndEnviron, asgBase, Bool.false_eq_true, if_false, List.append_nil]
+    simp only [defaultsAndEnviron, Bool.false_eq_true, if_false]
     exact ⟨h1, h2⟩
   | true =>
     obtain ⟨h3, h4⟩ := stage_loadEnv hp ha src.env henv
     obtain ⟨h5, h6⟩ := stage_envMerge hp ha h4 h2
-    simp only [defaultsAndEnviron, asgBase, if_true]
-    refine ⟨?_, h6⟩
-    rw [h5, h3, h1, evalKey_append a.dest (asgDefaults p ++ asgFiles p src.files)]
+    simp only [defaultsAndEnviron, if_true]
+    exact ⟨by rw [h5, h3, h1], h6⟩
+
+theorem stage_base {a : Arg} (ha : a ∈ p.args) (src : Sources) (hs : srcWf p src = true)
+    (env : Bool) (hn : env = true → envPlain p src.env a.dest = true) :
+    getK a.dest (defaultsAndEnviron p src env) = evalKey a.dest (asgBase p src env) .none
+    ∧ Inv p (defaultsAndEnviron p src env) := by
+  obtain ⟨h1, h2⟩ := stage_base_exact hp ha src hs env
+  refine ⟨?_, h2⟩
+  rw [h1]
+  cases env with
+  | false => simp only [asgBase, Bool.false_eq_true, if_false, List.append_nil]
+  | true =>
+    simp only [asgBase, if_true]
+    rw [evalKey_append a.dest (asgDefaults p ++ asgFiles p src.files)]
     exact (evalKey_setsOnly a.dest _ _ (envPlain_spec (hn rfl))).symm
 
 /-! ### the command line -/
